@@ -14,15 +14,19 @@ BASE = {"rb": 0.1, "lb": 0.1, "tb": 0.1, "lt": 0.3}
 KEYS = ["game_a", "game_b", "game_c"]
 
 
-def rewarded_end_component(g):
-    """signature of KF-C11-1: the game graph has an end component (player states: some successor inside, probabilistic
-    states: all successors inside) among its non-absorbing states that contains a state with positive reward - total
-    reward (of the value or of a diagnostic quantity) can then be infinite and the iteration need not terminate"""
+def end_component(g):
+    """signature of KF-C11-1: the game is not stopping - its graph has an end component (player states: some successor
+    inside, probabilistic states: all successors inside) among the non-absorbing states.  If the component carries a
+    positive reward a tracked total-reward quantity is infinite; if it does not, the 'probabilities under minimal reward'
+    diagnostic can oscillate between two vectors for ever (witness: seed 1, 3x4, force-down, max reward 1, loose 0.05).
+    Returns None, "rewarded" or "reward-free"."""
     tl = g["transition_list"]
     n = len(tl)
     absorbing = set(s for s in range(n) if all(t == s for _, t in tl[s]))
     C = O.end_component_states(g["players"], tl, absorbing)
-    return any(g["rewards"][s] > 0 for s in C)
+    if not C:
+        return None
+    return "rewarded" if any(g["rewards"][s] > 0 for s in C) else "reward-free"
 
 
 def structural(d):
@@ -69,12 +73,13 @@ def solve_entry(key, g, cpu):
     fn = lambda: CR.run_games({key: {k: g[k] for k in ("rewards", "players", "transition_list", "final_states")}})
     st, val = budget.run_budgeted(fn, cpu_s=cpu, confirm=False)
     if st == "timeout":
-        if rewarded_end_component(g):
-            return None, "KF-C11-1", time.time() - t0
+        ec = end_component(g)
+        if ec:
+            return None, "KF-C11-1:" + ec, time.time() - t0
         st, val = budget.run_budgeted(fn, cpu_s=10 * cpu, max_lines=30_000_000 + 400_000 * len(g["players"]))
         if st == "diverged":
             return ("C11/no-termination", "no result", "solved or no solution",
-                    "%s: the batch run does not terminate although the game has no rewarded end component" % key), None, time.time() - t0
+                    "%s: the batch run does not terminate although the game has no end component (it is a stopping game)" % key), None, time.time() - t0
     if st == "exc":
         return ("C11/batch-crash", "%s: %s" % (type(val).__name__, val), "solved or no solution", "%s: run_games raised %r" % (key, val)), None, time.time() - t0
     r = val
@@ -113,7 +118,7 @@ def check_params(sc, params, solve):
             if f:
                 findings.append(f[:3] + ("parameters %r: %s" % (params, f[3]),))
             elif k:
-                known.append((k, key))
+                known.append((k.split(":")[0], key + " (" + k.split(":")[1] + " end component)"))
             else:
                 stats["solved_entries"] += 1
                 stats["max_s"] = max(stats["max_s"], secs)
@@ -149,7 +154,7 @@ def work(shard):
                     d["count"] += 1
                     if len(d["cases"]) < 1:
                         d["cases"].append(mk(kid, params, "no result within the alarm", "solved or no solution",
-                                             "parameters %r: the batch run of %s does not return (the game has a rewarded end component)" % (params, key), solve))
+                                             "parameters %r: the batch run of %s does not return; the game is not stopping" % (params, key), solve))
             if items:
                 out["samples"].append({"entry": "cli", "params": items[0][0], "solved": items[0][1]})
         else:
@@ -234,12 +239,13 @@ RULE = ("command-line path roberta_generator.main() in a scratch directory over 
         "{1e-6, 0.99, 1-1e-9} and very long/wide boards (file structure only); manual path create_sg_from_board on every board of the <= 3-tile "
         "universe (structure); non-trivial = non-square, force-down or non-default probabilities")
 ASSUME = ["termination of the batch run is only claimed on the solve grid; with a failure probability of 1e-6 the solver legitimately needs ~3e7 sweeps",
-          "a batch run that does not return within the alarm on a game that has a rewarded end component matches known finding KF-C11-1 (while listed) "
-          "and is not confirmed further; without such an end component non-termination is confirmed under a deterministic line budget and is a VIOLATION",
+          "a batch run that does not return within the alarm on a game that has an end component among its non-absorbing states (i.e. is not a "
+          "stopping game) matches known finding KF-C11-1 (while listed) and is not confirmed further; on a game without end component "
+          "non-termination is confirmed under a deterministic line budget and is a VIOLATION",
           "layout assumption: the losing state is state n-2, the winning state n-1"]
-KF = {"KF-C11-1": "generated boards are not stopping: when a rewarded end component exists (e.g. seed 47, width 3, length 2, force-down, robot 0.5, "
-                  "light 0.05, tile 0.9: unpruned solve of game_a / game_b) the total-reward iteration tracks a quantity that is infinite and "
-                  "run_games never returns"}
+KF = {"KF-C11-1": "generated boards are not stopping games: when the game graph has an end component the total-reward iteration need not terminate "
+                  "(rewarded component, e.g. seed 47 w3 l2 force-down tile 0.9: a tracked quantity is infinite; reward-free component, e.g. seed 1 "
+                  "w3 l4 force-down max reward 1 loose 0.05: the 'probabilities under minimal reward' vector oscillates) and run_games never returns"}
 
 
 def run(ctx):
